@@ -202,7 +202,7 @@ def signature(kind, cfg):
 
 
 def dev_bound(cfg, max_dev, tier):
-    if tier == "quick" and cfg["B"] >= 3:
+    if cfg["B"] >= 3:
         return max_dev - 1
     return max_dev
 
@@ -277,7 +277,7 @@ def mae_task(_):
 def run(run):
     cfgs = configs(run.tier)
     max_dev = 2 if run.tier == "quick" else 3
-    cap = 4000 if run.tier == "quick" else 60000
+    cap = 4000 if run.tier == "quick" else 12000
     k = run.seed % 7
     cfgs = cfgs[k:] + cfgs[:k]
     chunk = 12
@@ -290,7 +290,7 @@ def run(run):
     run.pmap(mae_task, [0])
     capped = run.counters.get("configs_capped", 0)
     run.exhaustive = capped == 0
-    run.extra.update(bounds=dict(B="1..4", deviation_bound=f"{max_dev} (quick: {max_dev - 1} for B>=3)", execution_cap_per_config=cap, unit_alphabet=UNIT,
+    run.extra.update(bounds=dict(B="1..4", deviation_bound=f"{max_dev} ({max_dev - 1} for B>=3)", execution_cap_per_config=cap, unit_alphabet=UNIT,
                                  beta_alphabet=BETA, box_centres="full range", permutations="all B!"),
                      configs=len(cfgs), note="exhaustive=true means: every configuration x every execution with <= deviation_bound "
                      "non-default RNG answers was run (no per-config cap hit)")
